@@ -1,11 +1,12 @@
 from .common import Stream, run_model, REFDRV
 from . import streams_tables
 from . import streams_geom
+from . import streams_quality
 import subprocess
 
 ID = 'C15'
-PROPS_MODULE = 'Refine.Props.C15'
-STREAMS = [streams_tables.CELL, streams_geom.KERNELS, streams_geom.BARY, streams_geom.RATIO_QUAD]
+PROPS_MODULE = ['Refine.Props.C15', 'Refine.Props.C15Quality']
+STREAMS = [streams_tables.CELL, streams_geom.KERNELS, streams_geom.BARY, streams_geom.RATIO_QUAD, streams_quality.QUALITY]
 EXPLANATION = (
     'Proved (Lean 4, exact real arithmetic, over the executable model that is bit-compared with the C on every run): '
     'the generated e2n/f2n tables of all 3-D cell types describe a closed, coherently oriented boundary (each directed '
